@@ -81,7 +81,56 @@ def call(f, *a, **kw):
     return ('exc', type(e).__name__)
 
 
+class _Exotic(object):
+  """Default values whose type has its own idea of equality (they stand for unittest.mock.ANY, a numpy calibration table, an
+  object that refuses comparison with foreign types).  Compared by identity in the oracle; copying yields the same object."""
+
+  def __init__(self, tag):
+    self.tag = tag
+
+  def __deepcopy__(self, memo):
+    return self
+
+  def __copy__(self):
+    return self
+
+  def __repr__(self):
+    return '<exotic %s>' % self.tag
+
+  __hash__ = object.__hash__
+
+  def __eq__(self, other):
+    if self.tag == 'eq-all':
+      return True
+    if self.tag == 'eq-raises':
+      raise TypeError('cannot compare a calibration handle with %s' % type(other).__name__)
+    return _NoTruth()
+
+  def __ne__(self, other):
+    if self.tag == 'eq-all':
+      return False
+    if self.tag == 'eq-raises':
+      raise TypeError('cannot compare a calibration handle with %s' % type(other).__name__)
+    return _NoTruth()
+
+
+class _NoTruth(object):
+  def __bool__(self):
+    raise ValueError('The truth value of an array with more than one element is ambiguous')
+
+
+EXOTIC = {t: _Exotic(t) for t in ('eq-all', 'eq-array', 'eq-raises')}
+
+
+def dec_default(v):
+  return EXOTIC[v['__exotic__']] if isinstance(v, dict) and '__exotic__' in v else v
+
+
 def same(a, b):
+  if isinstance(b, dict) and '__exotic__' in b:
+    return a is EXOTIC[b['__exotic__']]
+  if isinstance(a, _Exotic) or isinstance(b, _Exotic):
+    return a is b
   return type(a) == type(b) and a == b
 
 
@@ -143,7 +192,7 @@ class Runner(object):
           exp = 'InvalidKeyError'
         elif k in model.decl:
           exp = 'KeyAlreadyDeclaredError'
-        kw = {} if default == NOT_SET else {'default_value': copy.deepcopy(default)}
+        kw = {} if default == NOT_SET else {'default_value': copy.deepcopy(dec_default(default))}
         got = call(conf.declare, k, **kw)
         if exp is None and k in RESERVED and got == ('exc', 'InvalidKeyError'):
           # refusing a name that attribute access could never reach is one way of keeping the views in agreement; if it
@@ -401,6 +450,7 @@ SNAP_CASES = st.lists(snap_ops(0), min_size=2, max_size=12).map(lambda o: {'snap
 VALS = st.one_of(st.integers(-3, 9), st.sampled_from(['s', '', 'abc', None, True, False, 1.5]), st.lists(st.integers(0, 3), max_size=2),
                  st.dictionaries(st.sampled_from(['a', 'b']), st.integers(0, 3), max_size=2))
 KEY = st.sampled_from(KEYS)
+EXOTIC_VALS = st.sampled_from(sorted(EXOTIC)).map(lambda t: {'__exotic__': t})
 RAISES = st.sampled_from([False, False, False, 'Inner', 'Inner', 'KeyboardInterrupt', 'SystemExit', 'ThreadTerminationError'])
 PAIRS = st.lists(st.tuples(st.one_of(KEY, KEY, KEY, st.sampled_from(['zz'])), VALS).map(list), max_size=3, unique_by=lambda p: p[0])
 FLAGPAIRS = st.lists(st.tuples(KEY, st.sampled_from(sorted(FLAG_TABLE))).map(list), max_size=2)
@@ -408,7 +458,7 @@ FLAGPAIRS = st.lists(st.tuples(KEY, st.sampled_from(sorted(FLAG_TABLE))).map(lis
 
 def ops(depth):
   base = [
-      st.tuples(st.just('declare'), st.one_of(KEY, KEY, KEY, st.sampled_from(BAD_KEYS)), st.one_of(st.just(NOT_SET), VALS)).map(list),
+      st.tuples(st.just('declare'), st.one_of(KEY, KEY, KEY, st.sampled_from(BAD_KEYS)), st.one_of(st.just(NOT_SET), VALS, VALS, VALS, EXOTIC_VALS)).map(list),
       st.tuples(st.sampled_from(['load', 'load_from_dict', 'load_from_file']), PAIRS, st.booleans(), st.booleans()).map(list),
       st.tuples(st.sampled_from(['load', 'load_from_dict']), PAIRS, st.just(True), st.just(False)).map(list),
       st.tuples(st.just('load_bad_file'), st.sampled_from(['{a: [', '[1, 2]', '5', '', 'a: b: c'])).map(list),
